@@ -76,6 +76,31 @@ Definition mon_make (g : game) (m : move) (g' : game) : bool :=
 Definition spec_perft (d : N) (g : game) : Z := ChessSpec.perft (N.to_nat d) (abs g).
 Definition spec_in_check (g : game) : bool := in_check (board (abs g)) (stm (abs g)).
 
+Local Open Scope N_scope.
+(* ---- C04: what a move must satisfy on the position for make_search_move's paired board / key updates to stay paired
+   (Proofs/KeyProofs.v proves the key invariant under it; the judge evaluates it on every generated move) ---- *)
+Definition nb (b sq : N) : bool := negb (N.testbit b sq).
+Definition move_fits (g : game) (m : move) : bool :=
+  let f := mfrom m in let t := mto m in let p := mpiece m in let w := white g in
+  (p <? 12) && N.testbit (bb g p) f && (nb (bb g p) t || (f =? t)) &&
+  (if mcap m && mep m
+   then (if w then negb (p =? BP) && N.testbit (bb g BP) (t + 8) else negb (p =? WP) && N.testbit (bb g WP) (t - 8))
+   else true) &&
+  (if negb (mpromo m =? NOPIECE) then
+     (mpromo m <? 12) && negb (mpromo m =? p) && nb (bb g (mpromo m)) t && negb (mcap m && mep m) &&
+     forallb (fun v => negb (v =? mpromo m) && negb (v =? p)) (victims w)
+   else if mcastle m then
+     negb (mcap m) &&
+     (if t =? 62 then negb (p =? WR) && nb (bb g WR) 61 && N.testbit (bb g WR) 63
+      else if t =? 58 then negb (p =? WR) && nb (bb g WR) 59 && N.testbit (bb g WR) 56
+      else if t =? 6 then negb (p =? BR) && nb (bb g BR) 5 && N.testbit (bb g BR) 7
+      else if t =? 2 then negb (p =? BR) && nb (bb g BR) 3 && N.testbit (bb g BR) 0
+      else true)
+   else true) &&
+  (if mdp m then negb ((if w then t + 8 else t - 8) =? NOSQ) else true).
+
+Local Close Scope N_scope.
+
 (* the formal reading of "legal position" for a bitboard position: consistent redundant sets + the rules-level wf *)
 Definition wf (g : game) : bool :=
   occ_ok g && wf_pos (abs g) && N.ltb (castling g) 16 && N.leb (ep g) 64.
